@@ -124,11 +124,8 @@ MASF = ["<DpMaster as FdlApplication>::{transmit_telegram,receive_reply,handle_t
         "PeripheralSet::{get_at_index_mut,get_next_index}", "Peripheral::{transmit_telegram,receive_reply}"]
 MAS_OBL = "termination of the master's turn; per slot: untouched | declined | sent one request; at most one request; request from the first slot at/after the cycle index that has something to send, nobody passed over, slots before the index not served again; cycle index stays at the sender; 'cycle completed' exactly when everybody remaining declined, then index 0, not reported twice; Offline transitions == reported events (none lost, none invented, right handle); global control due => reference broadcast frame, cycle untouched; Stop => nothing; Inv_DP preserved"
 h("c14_master_empty_terminates", "dp_master.rs", MV, ["C14"], panic_props=["C14", "C05"], timeout_s=600, functions=MASF, derived_loops=[""],
-  bounds="DP master without any peripheral, any operating/cycle state, high-priority-only turn (global control never due); slot loop bound derived: <= 2 passes; unwind 4",
+  bounds="DP master with one unoccupied storage slot (no peripheral configured), any operating/cycle state, high-priority-only turn (global control never due); slot loop bound derived: <= 2 passes; unwind 5",
   obligation="the turn ends (no hang), nothing is sent, the cycle restarts at slot 0", hang_test="hang_c14_master_empty")
-h("c14_master_transmit_0slots", "dp_master.rs", MV, ["C14"], panic_props=["C14", "C05"], timeout_s=600, functions=MASF, derived_loops=[""],
-  bounds="DP master without any peripheral; any operating state, cycle state, global-control time, priority flag; every loop bound derived: <= 14 iterations (checksum over the largest frame), the slot loop ends after slots+2 passes; unwind 16",
-  obligation=MAS_OBL)
 h("c14_master_transmit_2slots_q", "dp_master.rs", MV, ["C14"], panic_props=["C14", "C05"], timeout_s=2400, mem_gb=14, weight=4, functions=MASF, derived_loops=[""],
   bounds="2 storage slots with symbolic occupancy (sparse included), each occupied slot an arbitrary peripheral under Inv_DP (1-byte images, user prm/config present or not); any master state (Stop/Clear/Operate, cycle index or CycleCompleted, last global control); unwind 16",
   obligation=MAS_OBL)
@@ -172,6 +169,13 @@ l2("l2_active_idle", ["FdlActiveStation::{do_active_idle,handle_telegram}", "do_
    "universal C01 obligations; claim after TTO; 'in ring' status reply; token accepted iff last buffered telegram is a token to TS from PS, or from a stranger whose first offer was remembered; stranger's first offer remembered; witnessed passes reported in order; two consecutive own-address tokens => ListenToken; Inv_FDL preserved")
 l2("l2_check_token_pass", ["FdlActiveStation::{do_check_token_pass,do_pass_token,handle_telegram}"], ["C01", "C02", "C05", "C06", "C11"],
    "universal C01 obligations; nothing heard for a slot time: repeat to the SAME successor with attempt+1, third expiry: remove exactly the silent successor, token to the new NS (or keep it when alone), never remove before; new bytes arriving or anything heard: no repetition, no removal, continue as idle ring member (acceptance rules); Inv_FDL preserved")
+
+l2("l2_claim_token", ["FdlActiveStation::{do_claim_token,next_gap_poll,transmit_gap_poll_if_pending,await_gap_poll_response}"], ["C01", "C02", "C05", "C06", "C12"],
+   "universal C01 obligations; two token telegrams to self, LAS valid, full GAP scan scheduled; scan polls consecutive GAP addresses with status requests until the GAP is exhausted, then passes the token; ready master replying becomes NS (set_next_station reported), other replies leave NS; foreign telegram while awaiting => back off to ActiveIdle; silence for a slot => scan continues at once; Inv_FDL preserved")
+l2("l2_pass_token", ["FdlActiveStation::{do_pass_token,next_gap_poll,transmit_gap_poll_if_pending}"], ["C01", "C02", "C05", "C11", "C12"],
+   "universal C01 obligations; waits for the 33-bit pause; with the visit's GAP turn: waiting counter counts rotations up to the gap factor then restarts behind TS, sweep advances by exactly one address, polled address strictly inside (TS,NS), then AwaitStatusResponse; otherwise token to NS, pass reported to the ring view, CheckTokenPass (UseToken when alone); Inv_FDL preserved")
+l2("l2_await_status_response", ["FdlActiveStation::{do_await_status_response,await_gap_poll_response,do_pass_token}"], ["C01", "C02", "C05", "C06", "C11", "C12"],
+   "universal C01 obligations; reply from the polled address: ready master => set_next_station reported, else NS unchanged, then PassToken without another poll; any other telegram => back off to ActiveIdle; silence for a slot => token passed at once; sweep position unchanged; Inv_FDL preserved")
 
 PROPERTIES = {
     "C09": {
